@@ -127,6 +127,7 @@ impl RegexMatcher {
         }
         // Report errors against the pattern as given.
         Regex::with_options(pattern, options, &syntax)?;
+        check_intervals(pattern, regex_type)?;
         // The engine stops at the first alternative that matches, so anchor the
         // end to make it try the others until the whole path is consumed ('$'
         // would also accept the position before a final newline).
@@ -137,6 +138,74 @@ impl RegexMatcher {
         };
         let regex = Regex::with_options(&anchored, options, &syntax)?;
         Ok(Self { regex })
+    }
+}
+
+/// An interval whose lower bound exceeds its upper bound, or a bound above
+/// RE_DUP_MAX, is an invalid regular expression; the engine repeats the former
+/// backwards and accepts the latter up to 100000.
+fn check_intervals(pattern: &str, regex_type: RegexType) -> Result<(), Box<dyn Error>> {
+    const RE_DUP_MAX: u64 = 0x7fff;
+    let open = match regex_type {
+        RegexType::Emacs => return Ok(()),
+        RegexType::PosixExtended => "{",
+        RegexType::Grep | RegexType::PosixBasic => "\\{",
+    };
+    let mut rest = pattern;
+    while let Some(ch) = rest.chars().next() {
+        if let Some(interval) = rest.strip_prefix(open) {
+            let digits = |s: &str| s.len() - s.trim_start_matches(|c: char| c.is_ascii_digit()).len();
+            let low = &interval[..digits(interval)];
+            let after_low = &interval[low.len()..];
+            let high = after_low
+                .strip_prefix(',')
+                .map(|s| &s[..digits(s)])
+                .unwrap_or(low);
+            let bound = |s: &str| s.parse::<u64>().unwrap_or(u64::MAX);
+            if !low.is_empty() && !high.is_empty() && bound(low) > bound(high)
+                || [low, high].iter().any(|b| !b.is_empty() && bound(b) > RE_DUP_MAX)
+            {
+                return Err(From::from(format!(
+                    "Invalid interval ({low},{high}) in regular expression {pattern:?}"
+                )));
+            }
+            rest = interval;
+        } else if ch == '\\' {
+            // (the quoted character is not looked at)
+            let mut chars = rest.chars();
+            chars.next();
+            chars.next();
+            rest = chars.as_str();
+        } else if ch == '[' {
+            rest = after_bracket(&rest[1..]);
+        } else {
+            rest = &rest[ch.len_utf8()..];
+        }
+    }
+    Ok(())
+}
+
+/// What follows the bracket expression whose "[" has just been read (nothing
+/// when it is never closed): a "]" first (after "^") is a member, and "[:",
+/// "[." and "[=" run to their own ":]", ".]" and "=]".
+fn after_bracket(s: &str) -> &str {
+    let mut s = s.strip_prefix('^').unwrap_or(s);
+    s = s.strip_prefix(']').unwrap_or(s);
+    loop {
+        let Some(i) = s.find(['[', ']']) else {
+            return "";
+        };
+        if s.as_bytes()[i] == b']' {
+            return &s[i + 1..];
+        }
+        let inner = &s[i + 1..];
+        s = match inner.chars().next() {
+            Some(delim @ (':' | '.' | '=')) => match inner[1..].find(&format!("{delim}]")) {
+                Some(j) => &inner[1 + j + 2..],
+                None => return "",
+            },
+            _ => inner,
+        };
     }
 }
 
